@@ -647,6 +647,27 @@ def assigned_names(st: Any) -> set[str]:
     return out
 
 
+def _havoc_with(I: Interp, lc: LoopContract, fr: Frame, st: Any) -> None:
+    """The contract's havoc, then the rest of the Hoare rule: a local that is bound before the
+    loop, re-bound somewhere in its body and *not* replaced by the contract's havoc is
+    loop-carried state the contract does not know about (e.g. a flag added later) - after an
+    arbitrary number of iterations it holds an arbitrary value of its kind."""
+    names = assigned_names(st)
+    before = {n: fr.env.get(n) for n in names if n in fr.env}
+    lc.havoc(I, fr)
+    for n, v in before.items():
+        if n.startswith("__") or fr.env.get(n) is not v or n in fr.poison:
+            continue
+        if isinstance(v, VBool):
+            fr.env[n] = I.fresh_bool(n + "_carried")
+        elif isinstance(v, VInt):
+            fr.env[n] = VInt(I.fresh_int(n + "_carried").t, v.enum)
+        elif v is NONE or isinstance(v, (VFloat, VBytes)):
+            fr.env.pop(n, None)
+            fr.poison.add(n)
+        # containers / objects keep their identity: contracts speak about them explicitly
+
+
 def while_loop(I: Interp, st: ast.While, fr: Frame) -> None:
     key = loop_key(fr, st)
     lc = I.ex.loop_contracts.get(key)
@@ -666,7 +687,7 @@ def while_loop(I: Interp, st: ast.While, fr: Frame) -> None:
                           f"within 512 concrete iterations")
     _check_inv(I, lc, fr, key, "init")
     I.ghost["__loop_assigned"] = assigned_names(st)
-    lc.havoc(I, fr)
+    _havoc_with(I, lc, fr, st)
     I.ghost["__loop_phase"] = "assume"
     for name, f in lc.invariant(I, fr):
         I.assume(f)
@@ -723,7 +744,7 @@ def invariant_for(I: Interp, st: Any, fr: Frame, it: V, lc: LoopContract,
     I.ghost["__loop_len"] = n  # number of elements the loop is going to visit
     _check_inv(I, lc, fr, key, "init")
     I.ghost["__loop_assigned"] = assigned_names(st)
-    lc.havoc(I, fr)
+    _havoc_with(I, lc, fr, st)
     k = I.fresh_int("k")
     fr.env[kname] = k
     I.assume(z3.And(k.t >= 0, k.t <= n))
